@@ -516,3 +516,79 @@ Proof.
   rewrite (bind_Ok _ _ _ _ _ Hb). reflexivity.
 Qed.
 End ProxL2.
+
+(* ================================================================== *)
+(* Part 6: the CURRENT source (small_guarded regenerated from _lincomb_impl):
+   set_zero ignores the old contents at every size.  These proofs break if the
+   small-size branch goes back to the unguarded form. *)
+Section Current.
+Variable junk : nat -> nat -> VR.
+Notation sR := (@store VR).
+
+Lemma small_branch_repaired : small_guarded <> SvUnguarded.
+Proof. unfold small_guarded. discriminate. Qed.
+
+Lemma set_zero_ignores_old (s : sR) y sp d :
+  rd s y = Some (sp, d) -> do_set_zero y s = Ok tt (upd s y (sp, cl (repeat 0%R (length d)))).
+Proof. apply (set_zero_guarded_ignores_old small_guarded). exact small_branch_repaired. Qed.
+
+(* proximal_l2 in the branch step >= 1, in place: zeros at EVERY size, whatever out and x hold *)
+Lemma prox_bigstep_ip_any sp (s : sR) x y dx dy :
+  wf_store s -> rd s x = Some (sp, dx) -> rd s y = Some (sp, dy) ->
+  call junk (prox_l2_bigstep sp) (VElem x) (Some (VElem y)) s
+  = Ok (VElem y) (upd s y (sp, cl (repeat 0%R (fst sp)))).
+Proof.
+  intros W Ex Ey. unfold call, prox_l2_bigstep. cbn [sem map]. unfold cls_sem.
+  cbn [c_kind cls_ProximalL2_bigstep i_ran i_dom slots o_call].
+  unfold public_call.
+  rewrite (bind_Ok _ _ s true s) by (rewrite (in_space_elem _ _ _ _ Ex); reflexivity).
+  cbn [ret]. rewrite (bind_Ok _ _ s (Some (VElem x)) s) by reflexivity.
+  rewrite (bind_Ok _ _ s true s) by (cbn; rewrite Ey, sp_eqb_refl; reflexivity).
+  cbn [negb].
+  pose proof (W _ _ _ Ey) as Ly.
+  assert (Hb : exec_body junk
+            {| i_dom := sp; i_ran := RSp sp; i_pars := []; i_vecs := []; i_owns := []; i_kids := [] |}
+            (c_ip cls_ProximalL2_bigstep) (VElem x) (Some (VElem y)) s
+          = Ok VNone (upd s y (sp, cl (repeat 0%R (fst sp))))).
+  { unfold cls_ProximalL2_bigstep.
+    cbv beta iota zeta delta [exec_body exec_sts exec_st b_st b_ret c_ip lookup ref_id elem_id lift_opt
+                              e_x e_out e_tmp e_sc e_last bind ret fail].
+    rewrite (set_zero_ignores_old s y sp dy Ey). rewrite Ly. reflexivity. }
+  rewrite (bind_Ok _ _ _ _ _ Hb). reflexivity.
+Qed.
+
+(* ... and out of place (through _default_call_out_of_place on an uninitialised element):
+   a NEW element of zeros, whatever np.empty handed out *)
+Lemma prox_bigstep_oop_any sp (s : sR) x dx :
+  wf_store s -> rd s x = Some (sp, dx) ->
+  call junk (prox_l2_bigstep sp) (VElem x) None s
+  = Ok (VElem (length s)) (s ++ [(sp, cl (repeat 0%R (fst sp)))]).
+Proof.
+  intros W Ex. unfold call, prox_l2_bigstep. cbn [sem map]. unfold cls_sem.
+  cbn [c_kind cls_ProximalL2_bigstep i_ran i_dom slots o_call].
+  unfold public_call.
+  rewrite (bind_Ok _ _ s true s) by (rewrite (in_space_elem _ _ _ _ Ex); reflexivity).
+  cbn [ret]. rewrite (bind_Ok _ _ s (Some (VElem x)) s) by reflexivity.
+  set (t := length s). set (s1 := s ++ [(sp, junkbuf junk t (fst sp))]).
+  set (s2 := s ++ [(sp, cl (repeat 0%R (fst sp)))]).
+  assert (Et : rd s1 t = Some (sp, junkbuf junk t (fst sp))) by apply rd_app_new.
+  assert (Hb : exec_body junk
+            {| i_dom := sp; i_ran := RSp sp; i_pars := []; i_vecs := []; i_owns := []; i_kids := [] |}
+            (c_ip cls_ProximalL2_bigstep) (VElem x) (Some (VElem t)) s1 = Ok VNone s2).
+  { unfold cls_ProximalL2_bigstep.
+    cbv beta iota zeta delta [exec_body exec_sts exec_st b_st b_ret c_ip lookup ref_id elem_id lift_opt
+                              e_x e_out e_tmp e_sc e_last bind ret fail].
+    rewrite (set_zero_ignores_old s1 t sp _ Et). rewrite junkbuf_length.
+    unfold s1, s2, t. rewrite upd_app_last. reflexivity. }
+  assert (Hd : default_oop junk (RSp sp)
+                 (fun x0 o => exec_body junk
+                    {| i_dom := sp; i_ran := RSp sp; i_pars := []; i_vecs := []; i_owns := []; i_kids := [] |}
+                    (c_ip cls_ProximalL2_bigstep) x0 (Some o)) (VElem x) s = Ok (VElem t) s2).
+  { unfold default_oop. rewrite (bind_Ok _ _ _ _ _ (alloc_empty_eq junk sp s)).
+    fold t. fold s1. rewrite (bind_Ok _ _ _ _ _ Hb). reflexivity. }
+  rewrite (bind_Ok _ _ _ _ _ Hd).
+  rewrite (bind_Ok _ _ s2 true s2).
+  2:{ cbn. unfold s2, t. rewrite rd_app_new, sp_eqb_refl. reflexivity. }
+  reflexivity.
+Qed.
+End Current.
